@@ -1,8 +1,14 @@
 (* C18: objects in writable sections whose address is taken or that are pointed to by another
    table, audited BY READING as never written after program load.  Everything not listed here
    whose address escapes makes [statics_write_free] false.  Each entry is additionally covered by the
-   syntactic write scan of the translator (so_src_writes must be empty) and by the TSan runs of
-   harness/c18_threads.c, which execute the functions named in so_addr_takers concurrently. *)
+   syntactic write scan of the translator (so_src_writes must be empty), by the TSan runs of
+   harness/c18_threads.c, which execute the functions named in so_addr_takers concurrently, and --
+   since a store through a pointer is invisible to both scans -- by the read-only pass of
+   checks/c18.py: the library is linked as a shared object of its own, its .data/.bss pages are
+   write-protected and API histories are run (harness/c18_rostatics.c); any store to any object
+   of the statics list, audited or not, faults and is reported with the object's name.
+   History: VOID_TYPE was listed here as "only its address is stored" while set_type_layout wrote
+   its raw_size/align through u.ptr_type (fixed in /repo 9acaa19e, witness corpus/c18_sets.jsonl). *)
 From Coq Require Import List String.
 Import ListNotations.
 Local Open Scope string_scope.
@@ -17,7 +23,8 @@ Definition audited : list (string * string) := [
      (Its max_insn_size field WAS written by every patterns_init: the translator's source scan reports
      that as so_src_writes, which the audit does not excuse.) *)
   ("mir-gen", "patterns");
-  (* c2mir.c: VOID_TYPE is the pointee type of `void *` results (only its address is stored);
+  (* c2mir.c: VOID_TYPE is the pointee type of alloca results and label addresses; it is defined with its final
+     layout (raw_size 1, align 1), so set_type_layout returns at once when it reaches it and never stores;
      err_struct is the parser's error sentinel, compared by address only *)
   ("c2mir", "VOID_TYPE"); ("c2mir", "err_struct");
   (* c2mir x86_64 headers as strings and their index table: read by add_standard_includes /
